@@ -118,7 +118,7 @@ def step (p : Probes) (h : Host) (op : Op) : Host × String :=
   let l := asciiLower
   match op with
   | .dg now recs reacts =>
-    match ingest l h.cache now recs with
+    match ingest l (Cache.ops l) h.cache now recs with
     | .error e => (h, s!"D err={e.name}")
     | .ok out =>
       match out.call1, out.call2 with
@@ -133,7 +133,7 @@ def step (p : Probes) (h : Host) (op : Op) : Host × String :=
       | _, _ =>
         ({ h with cache := out.cache }, s!"D u=~ c1=~ s1=~ c2=~ s2=~ n={if out.notify then 1 else 0} cb=~ {readersStr p out.cache}")
   | .purge now =>
-    match purge l h.cache now with
+    match expire (Cache.ops l) h.cache now with
     | .error e => (h, s!"X err={e.name}")
     | .ok (c', expired) =>
       let us := expired.map (fun r => (r, some r))
